@@ -23,15 +23,15 @@ T = {
  'C03': ('static analysis: workflow typestate (target set before search), guarded accept, order-preserving chain, aligned parallel lists (ALIGN), radix belief contradiction (RADIX), adjoint-spelling agreement against a reference table (ADJOINT)',
          'Decides: direct workflows set model and target before synthesis; search returns only under the threshold (or the logged best-effort exit); list inputs flow through order-preserving steps only; permutation tables are enumerated in the same nesting order where zipped; radix-dependent constructions build circuits of that radix; a matrix the pinned tree adjoins with .conj().T / .dagger is not merely transposed or conjugated.',
          'Convergence of numerical search and distance values are NOT decided.'),
- 'C04': ('static analysis: CFG path rules (DUNDER, DEAD), batch-order classification with a linear-form evaluator (BATCHORD), sequence-order rules (SEQORD), append/insert specifications (APPEND, INSERT), shadow propagation in straighten (SHADOW), operation-parameter flow on unfold (PARAMFLOW), permutation direction (PERMDIR), no self-comparison (TAUT)',
-         'Decides: in-place operators return self; documented result values are live; batch editors visit positions in an index-safe order; composite editors emit operations in program order and map locations through the given location; straighten pushes every qudit of a moved operation; unfold/unfold_all inline a block with the operation\'s parameters; renumber_qudits applies the permutation in the documented direction to every component; no comparison has the same operand on both sides.',
+ 'C04': ('static analysis: CFG path rules (DUNDER, DEAD), batch-order classification with a linear-form evaluator (BATCHORD), sequence-order rules (SEQORD), append/insert specifications (APPEND, INSERT), shadow propagation in straighten (SHADOW), operation-parameter flow on unfold (PARAMFLOW), permutation direction (PERMDIR), no self-comparison (TAUT), index conventions: out-of-range dispatch (OOR), point normalisation (NORMPOINT), zero repeat (IMUL)',
+         'Decides: in-place operators return self; documented result values are live; batch editors visit positions in an index-safe order; composite editors emit operations in program order and map locations through the given location; straighten pushes every qudit of a moved operation; unfold/unfold_all inline a block with the operation\'s parameters; renumber_qudits applies the permutation in the documented direction to every component; no comparison has the same operand on both sides; a construct that relies on a requested cycle being real (reversed insertion at one index, reporting the index back) is guarded by a test against num_cycles; methods that reuse a point after changing the circuit normalise it first; `c *= 0` is handled apart from the range(n - 1) copies.',
          'Equality with a list-of-cycles reference model over edit histories is NOT decided.'),
- 'C05': ('static analysis: effect extraction over Circuit mutators (REMAP, COUP), key normal form (NF), pointer-slot typing (DAGLINK), response path rule, independent front/rear retargeting (FRONTREAR), read-API specifications (READAPI), permutation direction (PERMDIR), mirror-image agreement of prev/next siblings (MIRROR)',
-         'Decides: every renumbering rewrites every index-bearing component of every view, all in the same direction; edge-counter keys are created sorted; primitive mutators co-update grid, links, front/rear and both counters with consistent signs; prev/next pointer writes are well typed; front and rear pointers are retargeted by independent tests in pop/replace/straighten; forward and backward sibling walkers are mirror images; pop removes a cycle it emptied.',
+ 'C05': ('static analysis: effect extraction over Circuit mutators (REMAP, COUP), key normal form (NF), pointer-slot typing (DAGLINK), response path rule, independent front/rear retargeting (FRONTREAR), read-API specifications (READAPI), permutation direction (PERMDIR), mirror-image agreement of prev/next siblings (MIRROR), who-may-write rule for operation locations (OPVALUE)',
+         'Decides: every renumbering rewrites every index-bearing component of every view, all in the same direction; edge-counter keys are created sorted; primitive mutators co-update grid, links, front/rear and both counters with consistent signs; prev/next pointer writes are well typed; front and rear pointers are retargeted by independent tests in pop/replace/straighten; forward and backward sibling walkers are mirror images; pop removes a cycle it emptied; nothing but Operation stores to an operation\'s _location (qudit edits write new Operation objects into the grid).',
          'View consistency over arbitrary edit histories and absence of empty cycles after straighten/fold are NOT decided.'),
- 'C06': ('static analysis: cursor discipline of sibling walkers (CURSOR), value-numbered clone comparison (CLONE), index-space typing of circuit-wide vs operation-local parameter indices (IXT), mirror-image agreement of the forward/backward grid walkers (MIRROR)',
+ 'C06': ('static analysis: cursor discipline of sibling walkers (CURSOR), value-numbered clone comparison (CLONE), index-space typing of circuit-wide vs operation-local parameter indices (IXT), mirror-image agreement of the forward/backward grid walkers (MIRROR), radix-generic code never falls back to qubits (RADIXDROP, POW2)',
          'Decides: every function that walks operations with a running parameter index uses the same iteration order, slices params[i:i+W] and advances i by the same W exactly once per iteration; apply_right/left and their eval_ clones have equal contraction expressions; gradient product-rule structure; an operation-local parameter index never goes where a circuit-wide one is expected (and vice versa).',
-         'Correctness of the contraction itself and numerical values are NOT decided.'),
+         'Also decided: inside Circuit, UnitaryMatrix, StateVector, UnitaryBuilder and gates constructed with radixes, every UnitaryMatrix(...) / StateVector(...) wrapper passes the radixes (or copies under an isinstance test), and no tensor is sized with 2 ** n. Correctness of the contraction itself and numerical values are NOT decided.'),
  'C07': ('static analysis: message-protocol extraction and closure (PROTO), token/lock dataflow (TOKEN, LOCK), cross-thread atomicity (ATOM), precedence and sibling rules',
          'Decides: the protocol is closed on all four channels with agreeing payload shapes and sibling consumers; round-trip requests are answered exactly once per path; the wake-once token is cleared when consumed; read-receipt lock discipline; mailbox exists before SUBMIT; routing siblings agree; next() batches are handed over by reference before the reset; Worker.map reserves one mailbox slot per task; a manager routes a message for a task it does not own below. Reports the non-atomic wake protocol as a known finding.',
          'Delivery orders, thread interleavings, exactly-once execution and liveness are NOT decided.'),
@@ -41,8 +41,8 @@ T = {
  'C09': ('static analysis: effect pairing in the forward passes (PAIR), index-space typing (IXT), data-flow of the executable list (FLOW), eq/hash (HASH), aligned lists (ALIGN), even-parity of tentative swaps (UNDO), field completeness of PassData.become (FIELDS)',
          'Decides: every change of pi is mirrored by an emitted swap (and vice versa) on every path; emitted locations are physical; operations are emitted only if _can_exe held; mapping writes are well typed and placed after the forward pass; CouplingGraph hash is order independent; the permutation-aware passes enumerate their permutation tables in aligned order; swap scoring takes its tentative swap back on every exit.',
          'Equality of output and input under the mappings, termination of the uphill escape and connectivity of placements are NOT decided.'),
- 'C10': ('static analysis: guarded accept over all numerical passes (GA), radix belief contradiction (RADIX), rule-template protocol (TEMPLATE), effect restriction (EFF), alternative-spelling agreement (ALTSPELL), ordered-complement slices (STABLEMOVE), operation-parameter flow (PARAMFLOW), enumeration index identity (ENUMID), adjoint-spelling agreement (ADJOINT), unclipped inverse sine/cosine (NANDOM)',
-         'Decides: every numerical pass commits a candidate only under cost < threshold linked to that candidate and the pass target; qubit-only constructions are not fed radix-dependent gates; rule passes drop their source gate, introduce the advertised target and replace every collected point; removal passes only pop; the two spellings of a rotation receive the same angle; moving the multiplexor target keeps the select order; re-wrapped blocks keep their operation\'s parameters; an enumerate() index used as an identifier is taken over the unfiltered sequence; matrices the pinned tree adjoins are not merely transposed or conjugated; no pass takes arccos/arcsin of an unclipped matrix-derived value.',
+ 'C10': ('static analysis: guarded accept over all numerical passes (GA), radix belief contradiction (RADIX), rule-template protocol (TEMPLATE), effect restriction (EFF), alternative-spelling agreement (ALTSPELL), ordered-complement slices (STABLEMOVE), operation-parameter flow (PARAMFLOW), enumeration index identity (ENUMID), adjoint-spelling agreement (ADJOINT), unclipped inverse sine/cosine (NANDOM), stored-option liveness (OPTLIVE), directional index shift (SHIFTDIR), flag x target guard grid (GRID), unitary diagonalisers (EIGUNIT)',
+         'Decides: every numerical pass commits a candidate only under cost < threshold linked to that candidate and the pass target; qubit-only constructions are not fed radix-dependent gates; rule passes drop their source gate, introduce the advertised target and replace every collected point; removal passes only pop; the two spellings of a rotation receive the same angle; moving the multiplexor target keeps the select order; re-wrapped blocks keep their operation\'s parameters; an enumerate() index used as an identifier is taken over the unfiltered sequence; matrices the pinned tree adjoins are not merely transposed or conjugated; no pass takes arccos/arcsin of an unclipped matrix-derived value; every constructor option a pass stores is read by something an instance can execute (two known findings: max_depth of QFAST / QPredict decomposition); two-way scans shift cycle indices only from the left; BlockConversionPass has one guard per (kind, target) pair; no eig() eigenvector matrix is used as a unitary.',
          'Algebraic correctness of rules and decompositions is arithmetic over reals and NOT decided.'),
  'C11': ('static analysis: CFG specifications of control passes (SPEC), co-update and data-flow rules for ForEachBlockPass (COUP, FLOW), capture/restore pairing (PAIR), field completeness (FIELDS), operation-parameter flow into the per-block sub-circuit (PARAMFLOW)',
          'Decides: each control pass runs its bodies under exactly the predicate edges its specification names; ForEachBlockPass records point/op/error together from positions captured before the body ran and writes back once; rejected branches restore circuit and data; PassData.become restores every field.',
